@@ -911,7 +911,7 @@ def r01_8(ctx):
         if isinstance(r, ast.Return) and r.value is not None:
             t = resolve_expr(gcl_n.node, r.value).replace(" ", "")
             src = src or t
-            if _re.fullmatch(r"sum\(\[?\(?int\(self(?:\.nodes)?\[(\w+)\]\.tags\['LN'\]\[1\]\)for\1inself\.get_path\((\w+),throw_warning(?:=throw_warning)?\)\)?\]?\)", t):
+            if _re.fullmatch(r"sum\(\[?\(?int\(self(?:\.nodes)?\[(\w+)\]\.tags\['LN'\]\[1\]\)for\1inself\.get_path\((\w+),(\w+)(?:=\3)?\)\)?\]?\)", t):
                 oks = True
     if not oks:
         for lp in walk_own(gcl_n.node):
